@@ -217,7 +217,7 @@ CLAIMED = {
        "forms), break / continue / return. The proof rests on the fuel monotonicity of Spec (Lemmas/Mono: all twenty mutually recursive "
        "evaluator functions), on a simulation-up-to-fuel calculus (Lemmas/FoldSim) and on the fact that condition expressions never end in "
        "break / continue (Lemmas/NoCtl). foldBin_error_justified / foldAt_error_justified: an ExecError the model reports at parse time is the "
-       "operator's own answer on the constant operands, or its answer for EVERY int left operand / every array of that length. NOT covered by the theorem: "
+       "operator's own answer on the constant operands, or its answer for EVERY int left operand / every array of that length; foldProgram_error_source: these rules (plus the negative constant length of `[v; n]`) are the ONLY source of parse-time errors of a whole program, whatever its shape. NOT covered by the theorem: "
        "function literals and declarations (modelled and tied, not proved: the folded program's closures have other bodies, a value relation would be needed; the pass "
        "run again at closure creation is the open finding F07, stated as a witness: f07_fold_at_creation_reports_an_error), modules, `a[:]`, "
        "constants that are arrays built by an operator. `for` and `while x: T = e` are covered. (2) The rule-level theorems of Thm/C04 (each rewrite rule is a Spec equivalence). "
